@@ -472,6 +472,25 @@ deriving DecidableEq, Repr
 structure CookieUpExt where
   upgradeJWT : Str → Str → Nat → Str × Option Err
 
+/-! ### cmd/keymasterd `vipAuthHandler`, from `checkAuth` to the response -/
+
+/-- effects: a refusal, a question to the VIP service (user, code), the audit event, the cookie raised, success -/
+inductive VipOtpEffect
+  | fail (status : Nat)
+  | asked (user : Str) (otp : Nat)
+  | authEvent (user : Str)
+  | upgrade (user : Str) (level : Nat)
+  | success
+deriving DecidableEq, Repr
+
+/-- externals: `checkAuth` (translated separately), `strconv.Atoi` (the code as an opaque number), the VIP service's
+verdict, the result of the cookie upgrade -/
+structure VipOtpExt where
+  checkAuth : Nat → authInfo × Option Err
+  atoi : Str → Nat × Option Err
+  vipValidate : Str → Nat → Bool × Option Err
+  upgradeResult : Str → Nat → Str × Option Err
+
 /-! ### cmd/keymasterd `consumeLoginChallenge` -/
 
 /-- `localUserData`: the pending challenge of a user; the two challenge pointers are compared by identity (numbers
